@@ -11,6 +11,7 @@ func init() {
 			c.min("R-READFULL", 1)
 			c.ruleAlloc("R-ALLOC", 1<<17, "pkg/scale")
 			c.ruleLenSign("pkg/scale")
+			c.ruleLenConv("pkg/scale")
 			c.min("R-LENSIGN", 4)
 			c.min("R-ALLOC", 2)
 			c.ruleCompactCanon("R-COMPACT/canon", "pkg/scale", "(*decodeState).decodeUint", "(*decodeState).decodeSmallInt")
@@ -35,6 +36,8 @@ func init() {
 		"reflect-based dispatch is modelled only through the two switch tables; encoding/binary trusted", "DESIGN.md §3 R-COMPACT, R-VDT; §4 C11",
 		func(c *Ctx) {
 			c.load(append([]string{"pkg/scale"}, allVDTDirs...)...)
+			c.ruleFieldOrderTotal()
+			c.min("R-TOTALORDER", 1)
 			c.ruleCompactWidths("R-COMPACT/widths")
 			c.min("R-COMPACT/widths", 5)
 			c.ruleCompactEnc("R-COMPACT/enc")
